@@ -300,12 +300,16 @@ func controlledCase(ticks int, f func()) (string, string) {
 }
 
 // controlledCaseLeaks additionally returns the threads still alive at the end.
+// caseHorizon overrides the step horizon of controlledCase executions (0: the runtime's default); long
+// single-schedule runs set it for their duration.
+var caseHorizon int
+
 func controlledCaseLeaks(ticks int, f func()) (string, string, []string) {
 	if !rt.IsControlled() {
 		f()
 		return "", "", nil
 	}
-	o := rt.Run(rt.Config{Ticks: ticks}, f)
+	o := rt.Run(rt.Config{Ticks: ticks, Horizon: caseHorizon}, f)
 	cl, det := outcomeClause(o)
 	return cl, det, o.Leaked
 }
